@@ -669,6 +669,10 @@ class Parser:
                 if tok.txt == '{':
                     # {...} protects space and ','
                     seq = self.arg_buffer(buf, 0).all()
+                    if buf.cur() is tok:
+                        # closing } is missing: arg_buffer() has pushed
+                        # back all tokens (issue 23), ensure progress
+                        buf.next()
                     if len(seq) == 1 and type(seq[0]) is defs.VoidToken:
                         # this was an empty {}
                         seq = []
